@@ -11,8 +11,10 @@ package c09
 import (
 	"bytes"
 	"context"
+	"errors"
 	"fmt"
 	"io"
+	"os"
 	"math/rand/v2"
 	"net"
 	"sync"
@@ -39,6 +41,7 @@ type flowSpec struct {
 	rfaultAt int    // -1: none; underlying read error once this many bytes were delivered
 	ewd      bool   // terminal error handed to the rx pump together with the last bytes
 	bufKinds []int  // reader buffer size choices
+	dlPoll   bool   // the reader polls: some reads are made with an already expired read deadline
 }
 
 type caseSpec struct {
@@ -57,7 +60,7 @@ func (c *caseSpec) sig() string {
 		for _, w := range f.writes {
 			s += fmt.Sprintf(",%d", len(w))
 		}
-		s += fmt.Sprintf("|partial=%v|wf%d|rf%d|ewd=%v|bufs%v", f.partial, f.wfaultAt, f.rfaultAt, f.ewd, f.bufKinds)
+		s += fmt.Sprintf("|partial=%v|wf%d|rf%d|ewd=%v|bufs%v|dl=%v", f.partial, f.wfaultAt, f.rfaultAt, f.ewd, f.bufKinds, f.dlPoll)
 	}
 	return s
 }
@@ -128,6 +131,7 @@ func genFlow(rng *rand.Rand, c *caseSpec) *flowSpec {
 		f.bufKinds = append([]int(nil), bufChoices...)
 		f.bufKinds = append(f.bufKinds, 1+rng.IntN(3000), 1+rng.IntN(3000))
 	}
+	f.dlPoll = rng.IntN(3) == 0
 	return f
 }
 
@@ -159,6 +163,8 @@ type flowResult struct {
 	timedOut  bool
 	reads     int
 	shorts    int
+	polled    int
+	timeouts  int
 	bytesOK   int
 	discarded int
 	recent    []readRec // last few reads for the witness
@@ -183,10 +189,32 @@ func runFlow(r *vf.Run, c *caseSpec, fi int, f *flowSpec, src, dst *rwc.Conn, sr
 		pos := 0
 		alt := -1 // position before the last short-buffer skip (an implementation that reports a short buffer but keeps the rest is also in order)
 		ok := true
+		justTimedOut := false
 		for {
 			bl := f.bufKinds[rng.IntN(len(f.bufKinds))]
 			buf := big[:bl]
+			polled := f.dlPoll && !justTimedOut && rng.IntN(3) == 0
+			justTimedOut = false
+			if polled {
+				// a fixed instant in the past: the read may time out, or return queued
+				// data; a timed-out read must not consume anything
+				_ = dst.SetReadDeadline(time.Unix(1, 0))
+			}
 			n, err := dst.Read(buf)
+			if polled {
+				_ = dst.SetReadDeadline(time.Time{})
+				res.polled++
+				if err != nil && errors.Is(err, os.ErrDeadlineExceeded) {
+					res.timeouts++
+					if n != 0 {
+						r.Violation("conn/timeout-with-data", "a Read that reported an exceeded deadline also returned bytes", wit(map[string]any{"n": n}))
+						ok = false
+						break
+					}
+					justTimedOut = true // the next read blocks, so polling never spins
+					continue            // nothing consumed: the model position stays
+				}
+			}
 			res.reads++
 			rec := readRec{n: n, bufLen: bl, pos: pos}
 			if err != nil {
@@ -364,6 +392,8 @@ func runCase(r *vf.Run, c *caseSpec) {
 		r.Count("underlying_reads", nrd)
 		r.Count("conn_reads", res.reads)
 		r.Count("conn_short_buffer_reads", res.shorts)
+		r.Count("conn_reads_with_expired_deadline", res.polled)
+		r.Count("conn_reads_timed_out", res.timeouts)
 		r.Count("bytes_verified", res.bytesOK)
 		r.Count("bytes_discarded_with_short_buffer_report", res.discarded)
 		if uerr, _ := h.Terminal(); uerr == io.EOF {
@@ -391,7 +421,7 @@ func TestCheck(t *testing.T) {
 	r := vf.Start(t, "C09", vf.Exploration)
 	defer r.Finish()
 	r.SetRule("case = (1-40 writes of sizes {1,2,2047,2048,2049,4096,4097,10240} or PRNG 1..10240 through the real Conn.Write, optionally with an underlying writer accepting PRNG-sized parts of each write, optionally both directions at once) x (chunking of the underlying reads seen by the rx pump {1 byte, PRNG, PRNG<=3, PRNG<=300, as much as possible}, bounded or unbounded pipe, queue length {1,2,10,default}) x (reader buffer sizes from {0,1,7,100,2047,2048,2049,4096,65536,PRNG} per read) x (end: EOF, injected underlying read error after k bytes, underlying write error after k bytes; terminal error alone or together with the last bytes). " +
-		"Oracle: model position in the written stream; every Read's bytes must equal stream[pos:pos+n]; after a read that returned io.ErrShortBuffer the position skips to the end of the underlying chunk (the harness logged every underlying read); a terminal error is only allowed once the underlying stream handed EOF/E to the rx pump, must come after all delivered bytes were read, and must be that EOF/E. Non-trivial = flow completed and judged; distinct = distinct write-size sequences and parameters.")
+		"Oracle: model position in the written stream; every Read's bytes must equal stream[pos:pos+n]; after a read that returned io.ErrShortBuffer the position skips to the end of the underlying chunk (the harness logged every underlying read); a third of the flows poll: some reads are made with an already expired read deadline (a fixed past instant) and may time out, a timed-out read must return 0 bytes and consume nothing; a terminal error is only allowed once the underlying stream handed EOF/E to the rx pump, must come after all delivered bytes were read, and must be that EOF/E. Non-trivial = flow completed and judged; distinct = distinct write-size sequences and parameters.")
 	n := r.N(400, 4000)
 	var wg sync.WaitGroup
 	ch := make(chan *caseSpec)
